@@ -52,6 +52,11 @@ def e2e_case(rng, n=None, xy=False, reorder=False, local=True, slm=False):
     steps = rng.choice([6, 10, 14])
     case = dict(prob=D.random_problem(rng, n, steps, dt=rng.choice([5.0, 10.0]), xy=xy, local=local),
                 reorder=reorder)
+    if reorder and rng.random() < 0.7:
+        perm = list(range(n))
+        while perm == list(range(n)):
+            rng.shuffle(perm)
+        case["perm"] = perm
     if slm:
         # SLM-like schedule: interactions of some atoms switched off until t_switch (a grid time or not)
         times = case["prob"]["times"]
@@ -84,7 +89,16 @@ def run_e2e(case):
         cfg = emu_mps.MPSConfig(observables=[Occupation(evaluation_times=et), Energy(evaluation_times=et)],
                                 log_level=logging.CRITICAL, optimize_qubit_ordering=case["reorder"])
         Uf = U_of_t_factory(case)
-        res = emu_mps.MPSBackend._run_from_sequence_data(D.to_sequence_data(prob, U_of_t=Uf), cfg)
+        import emu_mps.optimatrix as optimat
+        import torch
+        saved = optimat.minimize_bandwidth
+        if case.get("perm") is not None:
+            # force a non-identity internal qubit order (the optimiser often returns the identity on small registers)
+            optimat.minimize_bandwidth = lambda *a, **k: torch.tensor(case["perm"])
+        try:
+            res = emu_mps.MPSBackend._run_from_sequence_data(D.to_sequence_data(prob, U_of_t=Uf), cfg)
+        finally:
+            optimat.minimize_bandwidth = saved
     # emu-mps queries the matrix at the midpoint of step 0 and at the start of every later step
     times = prob["times"]
     first_mid = 0.5 * (times[0] + times[1])
@@ -128,6 +142,8 @@ def _ser(case):
     out = {"reorder": case["reorder"], "prob": {k: (v.tolist() if hasattr(v, "tolist") else v) for k, v in p.items()}}
     if "slm" in case:
         out["slm"] = case["slm"]
+    if case.get("perm") is not None:
+        out["perm"] = case["perm"]
     return out
 
 
@@ -138,6 +154,8 @@ def _deser(c):
     out = {"reorder": c["reorder"], "prob": p}
     if "slm" in c:
         out["slm"] = c["slm"]
+    if c.get("perm") is not None:
+        out["perm"] = c["perm"]
     return out
 
 
